@@ -222,7 +222,11 @@ Section Universe.
   Definition st_tagop (cfg : config) (o : orders) (d : desc) (r : ref) (s : store) : store * result :=
     if fixRef && negb (match r with RDig k => Nat.eqb k (d_node d) | RTag _ => true end)
     then (s, RInvalidReference)
-    else if mem (d_node d) (blobs s) then (st_tag cfg o d r s, ROk) else (s, RNotFound).
+    else if mem (d_node d) (blobs s) then
+      (* a manifest is indexed first (graph.Index; it decodes: undecodable ones are never stored) *)
+      let s0 := if mf (d_node d) then mkStore (blobs s) (res s) (add (d_node d) (gr s)) (disk s) else s in
+      (st_tag cfg o d r s0, ROk)
+    else (s, RNotFound).
 
   (* Store.Untag (reference non-empty) *)
   Definition st_untag (cfg : config) (o : orders) (r : ref) (s : store) : store * result :=
@@ -235,12 +239,20 @@ Section Universe.
 
   (* Store.delete of node k (content.Equal = same node).  The untag loop ranges over the
      resolver map; its result does not depend on the order (each step filters one key). *)
+  (* a manifest that loses its last predecessor gets a by-digest reference (as Push would
+     have given it) unless it has one *)
+  Definition needs_ref (m : resolver) (d : nat) : bool :=
+    mf d && match lookup (RDig d) (r_index m) with None => true | Some _ => false end.
+  Definition keep_danglings (dang : list nat) (m : resolver) : resolver :=
+    fold_left (fun m d => if needs_ref m d then res_tag (plain d) (RDig d) m else m) dang m.
+
   Definition delete1 (cfg : config) (o : orders) (k : nat) (s : store) : store * list nat * bool :=
     let refs := map fst (filter (fun kv => Nat.eqb (d_node (snd kv)) k) (r_index (res s))) in
     let m := fold_left (fun m r => res_untag r m) refs (res s) in
     let gd := graph_remove k (gr s) in
-    let s1 := mkStore (blobs s) m (fst gd) (disk s) in
-    let s2 := match refs with [] => s1 | _ => maybe_save cfg o s1 end in
+    let changed := negb (match refs with [] => true | _ => false end) || existsb (needs_ref m) (snd gd) in
+    let s1 := mkStore (blobs s) (keep_danglings (snd gd) m) (fst gd) (disk s) in
+    let s2 := if changed then maybe_save cfg o s1 else s1 in
     if mem k (blobs s) then (mkStore (del k (blobs s)) (res s2) (gr s2) (disk s2), snd gd, true)
     else (s2, snd gd, false).
 
@@ -257,11 +269,12 @@ Section Universe.
   Definition enqueue (x : nat) (qq : list nat * list nat) : list nat * list nat :=
     if mem x (snd qq) then qq else (fst qq ++ [x], x :: snd qq).
 
-  (* Store.heldBySurvivor: a predecessor that is not queued and links to p other than as its
-     subject *)
+  (* Store.heldBySurvivor: a predecessor that is not queued and lists p more often than as its
+     subject (content.Successors reports the subject among the successors) *)
   Definition held (s : store) (queued : list nat) (p : nat) : bool :=
     existsb (fun q => negb (mem q queued) &&
-                      negb (match subj q with Some x => Nat.eqb x p | None => false end))
+                      Nat.ltb (match subj q with Some x => if Nat.eqb x p then 1 else 0 | None => 0 end)
+                              (count_occ Nat.eq_dec (succs q) p))
             (predecessors (gr s) p).
 
   Fixpoint delete_loop (fuel : nat) (cfg : config) (o : orders) (ds : list (list nat * list nat))
@@ -336,7 +349,7 @@ Section Universe.
       if sk cur && negb (mem cur bl) then false
       else match subj cur with
            | None => false
-           | Some sb => if mem sb g then true else chain_hits f bl g sb
+           | Some sb => if mf sb && mem sb g then true else chain_hits f bl g sb
            end
     end.
 
